@@ -893,7 +893,7 @@ func main() {
 		for _, v := range vs {
 			r.Violation(v.Key, v.What, rp)
 		}
-		s.Close()
+		seqx.Close(s)
 		r.Finish()
 	}
 	if tr := os.Getenv("C03_FDPROBE"); tr != "" { // debugging aid: run one trace 200 times, print the open descriptors
